@@ -541,7 +541,8 @@ def domain_guard(chk, prog, refs=None):
                 chk.record("DOMAIN-GUARD", site, "argument provably inside the domain", verdict="VIOLATION", detail=why)
                 chk.finding("DOMAIN-GUARD", f.module.rel, f.qname, "np.%s(%s)" % (s_["kind"], s_["arg"][:80]), why, line=s_["node"].lineno)
         if len(iv.sites) < 1:
-            chk.error("DOMAIN-GUARD: %s has no sqrt/arccos/arcsin call any more (%d confirmed by hand)" % (ref, want))
+            # e.g. sqrt(x**2 + y**2) rewritten as np.hypot(x, y): nothing with a restricted domain is left in the function or in the helpers it calls
+            chk.record("DOMAIN-GUARD", ref, "no sqrt/arccos/arcsin call left in the function or its same-module helpers (%d confirmed by hand earlier): nothing to guard" % want)
     return n
 
 
